@@ -85,6 +85,25 @@ let () =
            end else begin
              let a = rd () in Printf.printf "%s\n" (pv (comp_wrap fops k a))
            end
+         | "SUM" -> let n = ni () in
+           (* keyword rank = position in the alphabetical (std::map) order of the component keywords *)
+           let rank kw = (match kw with "angle" -> 0 | "dihedral" -> 1 | "distance" -> 2 | "distanceZ" -> 3 | "eulerPhi" -> 4
+                                     | "polarPhi" -> 5 | _ -> 6) in
+           let comps = List.init n (fun _ ->
+               let kw = next () in let pp = nf () in let co = nf () in let ex = ni () in let wc = nf () in
+               let per_kw = (kw = "dihedral" || kw = "polarPhi" || kw = "spinAngle" || kw = "eulerPhi") in
+               let per = per_kw || (kw = "distanceZ" && pp <> 0.0) in
+               { sc_per = per; sc_P = (if per_kw then 360.0 else if per then pp else 0.0); sc_wc = (if per then wc else 0.0);
+                 sc_coeff = co; sc_exp = z_of_int ex; sc_rank = z_of_int (rank kw) }) in
+           let x1 = nf () in let x2 = nf () in let xw = nf () in
+           let l = sum_creation_order comps in
+           let k = sum_kind fops l in
+           let (fl_, pp, cc) = (match sum_periodic fops l with Some (pp, cc) -> (1.0, pp, cc) | None -> (0.0, 0.0, 0.0)) in
+           let sv v = (match v with VS x -> hex x | _ -> "?") in
+           (match comp_dist2 fops pi k (VS x1) (VS x2), comp_lgrad fops pi k (VS x1) (VS x2), comp_rgrad fops pi k (VS x1) (VS x2) with
+            | Some d, Some g, Some rg ->
+              Printf.printf "%s %s %s %s %s %s %s\n" (hex fl_) (hex pp) (hex cc) (hex d) (sv g) (sv rg) (sv (comp_wrap fops k (VS xw)))
+            | _ -> Printf.printf "typeerror\n")
          | "MR" -> let pp = nf () in let c = nf () in let x0 = nf () in let x1 = nf () in
            let out = ref [] in
            while !p < Array.length w do let l = nf () in out := hex (mr_center fops c pp x0 x1 l) :: !out done;
